@@ -21,7 +21,15 @@
    A fifth element 1 marks a free run: the threads were started together without the scheduler
    (real pre-emption); there is no schedule to replay, and by C20_scenario the model's answer is
    the same for every schedule: the specified solo results.
-   The model is run with the mode confined to the thread (sh = false: the code since 5f67dd0). *)
+   The model is run with the mode confined to the thread (sh = false: the code since 5f67dd0).
+
+   A request whose first element is the atom 8 is about the parallel adaptors:
+     request      (8 n workers reps)       store with n annotations, pool of `workers` rayon threads
+     model input  (8 workers reps chains)  chains = for each iterator chain the handles the SEQUENTIAL
+                                           iterator yields, in order
+   one triple per chain: (len collect fold find_first filter+collect agree) computed by the harness
+   from chain.parallel() on the pool (agree = 1 if every repetition gave what the sequential iterator
+   gives; otherwise the values of the first deviating repetition are reported). *)
 From Coq Require Import List ZArith Bool Arith.
 Import ListNotations.
 From Stam Require Import Base.Sx Model.Conc Spec.ConcSpec.
@@ -85,7 +93,13 @@ Definition file_bad (ts : list thread) (i : nat) : bool :=
 Definition sequential_schedule (sc : scen) : list nat :=
   flat_map (fun i => repeat i 200) (seq 0 (length (ops sc))).
 
-Definition run_C20 (x : sx) : sx :=
+Definition run_par (x : sx) : sx :=
+  L (map (fun c =>
+            let l := map sx_Z (sx_list c) in
+            triple (L (map A (par_consumers l) ++ [A 1%Z])) (L (map A (seq_consumers l) ++ [A 1%Z])) 0)
+         (sx_list (sx_nth 3 x))).
+
+Definition run_sched (x : sx) : sx :=
   let sc := scen_of x in
   let free := sx_bool (sx_nth 4 x) in
   let sched := if free then sequential_schedule sc else map sx_nat (sx_list (sx_nth 3 x)) in
@@ -94,3 +108,9 @@ Definition run_C20 (x : sx) : sx :=
   L (triples sc (thr st) (ops sc)
      ++ [triple (L (map (fun i => of_bool (file_bad (thr st) i)) (seq 0 n)))
                 (L (map (fun _ => A 0%Z) (seq 0 n))) 0]).
+
+Definition run_C20 (x : sx) : sx :=
+  match sx_nth 0 x with
+  | A _ => run_par x
+  | L _ => run_sched x
+  end.
